@@ -274,3 +274,58 @@ func TestC05OrderDup(t *testing.T) {
 		nontrivial = multi > 0 || overlaps > 0
 	})
 }
+
+// C05 without PauseTimeout (the Config default): no write ever has a
+// deadline. Persisted publishes without payload on a pipe-like connection
+// (no writev: the empty second buffer is a Write of its own) which is lost
+// right behind the packet's last byte, then the retransmission: a packet
+// which was on the wire in full comes again with DUP, a first transmission
+// never has it.
+func TestC05NoPauseTimeout(t *testing.T) {
+	rapid.Check(t, func(rt *rapid.T) {
+		cfg := baseConfig()
+		cfg.PauseTimeout = 0
+		h := newH(rt, "C05", asVolatileSession(rt, sim.Options{Config: cfg}))
+		h.WithLock(func() { h.PipeLike = rapid.IntRange(0, 3).Draw(rt, "pipeLike") != 0 })
+		nontrivial := false
+		defer func() { h.finish(nontrivial) }()
+		h.Act("no PauseTimeout; pipe-like=%t", h.PipeLike)
+		h.appStep("first connect")
+		var fc faultCounters
+		fa := h.faultActions(rt, &fc)
+		cuts := 0
+		actions := map[string]func(*rapid.T){
+			"emptyPayloadCut":  func(rt *rapid.T) { fa["emptyPayloadCut"](rt); cuts++ },
+			"emptyPayloadCut2": func(rt *rapid.T) { fa["emptyPayloadCut"](rt); cuts++ },
+			"pub1":             func(rt *rapid.T) { h.pub(1, rapid.Bool().Draw(rt, "retain")) },
+			"pub2":             func(rt *rapid.T) { h.pub(2, rapid.Bool().Draw(rt, "retain")) },
+			"pubEmpty": func(rt *rapid.T) {
+				h.forceEmpty = true
+				h.pub(byte(rapid.IntRange(1, 2).Draw(rt, "level")), false)
+				h.forceEmpty = false
+			},
+			"breakNow":    fa["breakNow"],
+			"appStep":     fa["appStep"],
+			"releaseAcks": fa["releaseAcks"],
+			"": func(rt *rapid.T) {
+				noPanics(h)
+				h.checkWire()
+				msgs := h.messages()
+				h.checkLifecycle(msgs)
+				h.checkResend(msgs, true)
+				h.checkOrderAndDup(msgs, true)
+			},
+		}
+		rt.Repeat(actions)
+		h.drain(h.allPersistedDone)
+		noPanics(h)
+		h.checkWire()
+		msgs := h.messages()
+		h.checkLifecycle(msgs)
+		h.checkResend(msgs, true)
+		multi := h.checkOrderAndDup(msgs, true)
+		h.checkDelivered(msgs, h.Broker)
+		h.label("without-PauseTimeout")
+		nontrivial = cuts > 0 || multi > 0
+	})
+}
